@@ -132,7 +132,7 @@ class TokenTree:
         current = token
         steps = 0
         while maxdepth == -1 or maxdepth > steps:
-            if not current.verify(self.public_key):
+            if len(current.content_hash) != len(self.genesis_hash) or not current.verify(self.public_key):
                 return False
             if current.previous_token_hash == self.genesis_hash:
                 break
@@ -154,7 +154,7 @@ class TokenTree:
         steps = 0
         path = [token]
         while maxdepth == -1 or maxdepth > steps:
-            if not current.verify(self.public_key):
+            if len(current.content_hash) != len(self.genesis_hash) or not current.verify(self.public_key):
                 return []
             if current.previous_token_hash == self.genesis_hash:
                 break
